@@ -1,4 +1,428 @@
+/-
+  C13 — property theorems (model and specification: ShelxModel/C13.lean; thresholds, bond condition and radii:
+  ShelxModel/Extracted/SdmC13.lean, regenerated from sdm.py / elements.py on every run).
+
+  PARTIAL, and explicit about it: the theorems are about EXACT arithmetic. They are stated over an arbitrary
+  linearly ordered field `K` (ℚ, ℝ …) and take `floor` and `sqrt` as functions with their defining properties as
+  hypotheses (`IsFloor`, `IsSqrt`; ℚ's floor is shown to satisfy `IsFloor`). Nothing is claimed about rounding
+  in IEEE doubles; the implementation is compared with the model and with a brute-force oracle at 1e-9.
+  The thresholds baked into `calc_sdm` appear as hypotheses exactly where the proofs need them.
+-/
 import ShelxModel.C13
+import Mathlib.Tactic.Ring
+import Mathlib.Tactic.Linarith
+import Mathlib.Tactic.NormNum
+import Mathlib.Tactic.Push
+import Mathlib.Algebra.Order.Field.Basic
+
 namespace Shelx.C13
-theorem placeholder_c13 : (1 : Nat) = 1 := rfl
+
+set_option linter.unusedSectionVars false
+
+variable {K : Type} [Field K] [LinearOrder K] [IsStrictOrderedRing K]
+
+/-! ### what is assumed of `floor` and `sqrt` -/
+
+def IsInt (x : K) : Prop := ∃ n : ℤ, x = (n : K)
+
+/-- `floor` is integer valued with `floor x ≤ x < floor x + 1` -/
+structure IsFloor (fl : K → K) : Prop where
+  isInt : ∀ x, IsInt (fl x)
+  le : ∀ x, fl x ≤ x
+  lt : ∀ x, x < fl x + 1
+
+/-- `sqrt` on the non-negative numbers: non-negative, squares back -/
+structure IsSqrt (sq : K → K) : Prop where
+  nonneg : ∀ x, 0 ≤ x → 0 ≤ sq x
+  sq_mul : ∀ x, 0 ≤ x → sq x * sq x = x
+
+/-- ℚ's floor (core `Rat.floor`) satisfies `IsFloor`: the hypothesis is not vacuous -/
+theorem isFloor_rat : IsFloor (fun x : ℚ => ((Rat.floor x : ℤ) : ℚ)) where
+  isInt x := ⟨Rat.floor x, rfl⟩
+  le x := Rat.floor_le x
+  lt x := by have := Rat.lt_floor_add_one x; simpa using this
+
+theorem int_abs_lt_one {k : ℤ} (h1 : -1 < (k : K)) (h2 : (k : K) < 1) : k = 0 := by
+  have a : (-1 : ℤ) < k := by exact_mod_cast h1
+  have b : k < (1 : ℤ) := by exact_mod_cast h2
+  omega
+
+theorem int_ne_zero_abs {k : ℤ} (h : k ≠ 0) : (1 : K) ≤ |(k : K)| := by
+  have : (1 : ℤ) ≤ |k| := Int.one_le_abs h
+  have h2 : ((1 : ℤ) : K) ≤ ((|k| : ℤ) : K) := Int.cast_le.mpr this
+  simpa using h2
+
+/-! ### wrap -/
+
+/-- **wrap_component**: the code's `D + ½ - floor(D + ½) - ½` lies in [-½, ½) and differs from `d` by an integer -/
+theorem wrap_component {fl : K → K} (hf : IsFloor fl) {half : K} (hh : 2 * half = 1) (d : K) :
+    -half ≤ wrap fl half d ∧ wrap fl half d < half ∧ IsInt (d - wrap fl half d) := by
+  have h1 := hf.le (d + half)
+  have h2 := hf.lt (d + half)
+  obtain ⟨n, hn⟩ := hf.isInt (d + half)
+  refine ⟨?_, ?_, ⟨n, ?_⟩⟩
+  · simp only [wrap]; linarith
+  · simp only [wrap]; linarith
+  · simp only [wrap]; rw [← hn]; ring
+
+/-- the only number in [-½, ½) that differs from `d` by an integer is `wrap d` -/
+theorem wrap_unique {fl : K → K} (hf : IsFloor fl) {half : K} (hh : 2 * half = 1) (d w : K)
+    (h1 : -half ≤ w) (h2 : w < half) (hi : IsInt (d - w)) : wrap fl half d = w := by
+  obtain ⟨a, b, ⟨m, hm⟩⟩ := wrap_component hf hh d
+  obtain ⟨n, hn⟩ := hi
+  have hk : ((n - m : ℤ) : K) = wrap fl half d - w := by push_cast; rw [← hn, ← hm]; ring
+  have : n - m = 0 := by
+    apply int_abs_lt_one (K := K)
+    · rw [hk]; linarith
+    · rw [hk]; linarith
+  have h0 : ((n - m : ℤ) : K) = 0 := by rw [this]; simp
+  rw [hk] at h0
+  linarith
+
+example : wrap (fun x : ℚ => ((Rat.floor x : ℤ) : ℚ)) (1/2) (7/4) = -1/4 := by
+  apply wrap_unique isFloor_rat (by norm_num)
+  · norm_num
+  · norm_num
+  · exact ⟨2, by norm_num⟩
+
+/-! ### minimum image -/
+
+def IsLattice (t : V3 K) : Prop := IsInt t.x ∧ IsInt t.y ∧ IsInt t.z
+
+/-- the reciprocal-length bound: `d` are the perpendicular spacings (1/|a*|, 1/|b*|, 1/|c*|) of the cell whose
+    metric length is `len`; a fractional component times its spacing never exceeds the length of the vector
+    (Cauchy–Schwarz with the reciprocal axes). Proved below for the model's `vectorLength` in orthogonal cells
+    (`recipBound_orthogonal`) and in general cells with non-degenerate angles (`recipBound_triclinic_x`). -/
+structure RecipBound (len : V3 K → K) (d : V3 K) : Prop where
+  dx : 0 < d.x
+  dy : 0 < d.y
+  dz : 0 < d.z
+  bx : ∀ v, |v.x| * d.x ≤ len v
+  by' : ∀ v, |v.y| * d.y ≤ len v
+  bz : ∀ v, |v.z| * d.z ≤ len v
+
+theorem comp_short {a dd L : K} (hd : 0 < dd) (h1 : |a| * dd ≤ L) (hL : 2 * L < dd) : |a| < 1 / 2 := by
+  by_contra h
+  push Not at h
+  nlinarith
+
+theorem comp_far {a n dd L L' : K} (hd : 0 < dd) (h1 : |a| * dd ≤ L) (hL : 2 * L < dd) (hn : 1 ≤ |n|)
+    (h2 : |a + n| * dd ≤ L') : L < L' := by
+  have ha := comp_short hd h1 hL
+  have hx : 1 / 2 < |a + n| := by
+    rcases abs_cases a with ⟨e1, _⟩ | ⟨e1, _⟩ <;> rcases abs_cases n with ⟨e2, _⟩ | ⟨e2, _⟩ <;>
+      rcases abs_cases (a + n) with ⟨e3, _⟩ | ⟨e3, _⟩ <;> linarith
+  nlinarith
+
+theorem V3.ext' {a b : V3 K} (hx : a.x = b.x) (hy : a.y = b.y) (hz : a.z = b.z) : a = b := by
+  cases a; cases b; simp_all
+
+/-- a vector shorter than half of every spacing is strictly shorter than all its other lattice translates -/
+theorem short_is_unique_min {len : V3 K → K} {d : V3 K} (hb : RecipBound len d) (w t : V3 K)
+    (ht : IsLattice t) (hne : t.x ≠ 0 ∨ t.y ≠ 0 ∨ t.z ≠ 0)
+    (hs : 2 * len w < d.x ∧ 2 * len w < d.y ∧ 2 * len w < d.z) : len w < len (w.add t) := by
+  obtain ⟨⟨nx, hx⟩, ⟨ny, hy⟩, ⟨nz, hz⟩⟩ := ht
+  rcases hne with h | h | h
+  · have : nx ≠ 0 := by rintro rfl; apply h; rw [hx]; simp
+    exact comp_far hb.dx (hb.bx w) hs.1 (by rw [hx]; exact int_ne_zero_abs this) (hb.bx (w.add t))
+  · have : ny ≠ 0 := by rintro rfl; apply h; rw [hy]; simp
+    exact comp_far hb.dy (hb.by' w) hs.2.1 (by rw [hy]; exact int_ne_zero_abs this) (hb.by' (w.add t))
+  · have : nz ≠ 0 := by rintro rfl; apply h; rw [hz]; simp
+    exact comp_far hb.dz (hb.bz w) hs.2.2 (by rw [hz]; exact int_ne_zero_abs this) (hb.bz (w.add t))
+
+theorem isInt_sub {a b : K} (ha : IsInt a) (hb : IsInt b) : IsInt (a - b) := by
+  obtain ⟨m, rfl⟩ := ha; obtain ⟨n, rfl⟩ := hb; exact ⟨m - n, by push_cast; ring⟩
+
+theorem isInt_neg {a : K} (ha : IsInt a) : IsInt (-a) := by
+  obtain ⟨m, rfl⟩ := ha; exact ⟨-m, by push_cast; ring⟩
+
+/-- **wrap_is_min_image**: if SOME lattice translate `v + t` of the difference vector is shorter than half of
+    every perpendicular spacing, then the component-wise wrapped vector of the code IS that translate, and it is
+    strictly shorter than every other lattice translate (`t'` ranges over all of ℤ³). -/
+theorem wrap_is_min_image {fl : K → K} (hf : IsFloor fl) {half : K} (hh : 2 * half = 1)
+    {len : V3 K → K} {d : V3 K} (hb : RecipBound len d) (v t : V3 K) (ht : IsLattice t)
+    (hs : 2 * len (v.add t) < d.x ∧ 2 * len (v.add t) < d.y ∧ 2 * len (v.add t) < d.z) :
+    wrapV fl half v = v.add t ∧
+      ∀ t' : V3 K, IsLattice t' → (t'.x ≠ t.x ∨ t'.y ≠ t.y ∨ t'.z ≠ t.z) → len (v.add t) < len (v.add t') := by
+  have hhalf : half = 1 / 2 := by linarith
+  constructor
+  · have cx := comp_short hb.dx (hb.bx _) hs.1
+    have cy := comp_short hb.dy (hb.by' _) hs.2.1
+    have cz := comp_short hb.dz (hb.bz _) hs.2.2
+    rw [abs_lt] at cx cy cz
+    apply V3.ext'
+    · apply wrap_unique hf hh <;> simp only [V3.add] at cx ⊢
+      · linarith [cx.1]
+      · linarith [cx.2]
+      · have := isInt_neg ht.1; obtain ⟨n, hn⟩ := this; exact ⟨n, by rw [← hn]; ring⟩
+    · apply wrap_unique hf hh <;> simp only [V3.add] at cy ⊢
+      · linarith [cy.1]
+      · linarith [cy.2]
+      · have := isInt_neg ht.2.1; obtain ⟨n, hn⟩ := this; exact ⟨n, by rw [← hn]; ring⟩
+    · apply wrap_unique hf hh <;> simp only [V3.add] at cz ⊢
+      · linarith [cz.1]
+      · linarith [cz.2]
+      · have := isInt_neg ht.2.2; obtain ⟨n, hn⟩ := this; exact ⟨n, by rw [← hn]; ring⟩
+  · intro t' ht' hne
+    have e : v.add t' = (v.add t).add (t'.sub t) := by
+      apply V3.ext' <;> simp only [V3.add, V3.sub] <;> ring
+    rw [e]
+    apply short_is_unique_min hb _ _ ⟨isInt_sub ht'.1 ht.1, isInt_sub ht'.2.1 ht.2.1, isInt_sub ht'.2.2 ht.2.2⟩ _ hs
+    simp only [V3.sub]
+    rcases hne with h | h | h
+    · left; intro h0; apply h; linarith
+    · right; left; intro h0; apply h; linarith
+    · right; right; intro h0; apply h; linarith
+
+/-! ### the model's `vector_length` satisfies the reciprocal-length bound -/
+
+theorem le_sqrt_of_sq_le {sq : K → K} (hs : IsSqrt sq) {u s : K} (_hu : 0 ≤ u) (h : u * u ≤ s) : u ≤ sq s := by
+  have hs0 : 0 ≤ s := le_trans (mul_self_nonneg u) h
+  by_contra hc
+  push Not at hc
+  have h1 := hs.nonneg s hs0
+  have h2 := hs.sq_mul s hs0
+  nlinarith
+
+/-- orthogonal cells (all three cosines 0): the spacings are the cell lengths -/
+theorem recipBound_orthogonal {sq : K → K} (hs : IsSqrt sq) {a b c : K} (ha : 0 < a) (hb : 0 < b) (hc : 0 < c) :
+    RecipBound (vectorLength sq (Cell.ofLengths a b c 0 0 0)) ⟨a, b, c⟩ where
+  dx := ha
+  dy := hb
+  dz := hc
+  bx v := by
+    apply le_sqrt_of_sq_le hs (mul_nonneg (abs_nonneg _) ha.le)
+    have e : |v.x| * a * (|v.x| * a) = v.x * v.x * (a * a) := by rw [← abs_mul_abs_self v.x]; ring
+    rw [e]; simp only [quadForm, Cell.ofLengths]
+    nlinarith [mul_self_nonneg (v.y * b), mul_self_nonneg (v.z * c)]
+  by' v := by
+    apply le_sqrt_of_sq_le hs (mul_nonneg (abs_nonneg _) hb.le)
+    have e : |v.y| * b * (|v.y| * b) = v.y * v.y * (b * b) := by rw [← abs_mul_abs_self v.y]; ring
+    rw [e]; simp only [quadForm, Cell.ofLengths]
+    nlinarith [mul_self_nonneg (v.x * a), mul_self_nonneg (v.z * c)]
+  bz v := by
+    apply le_sqrt_of_sq_le hs (mul_nonneg (abs_nonneg _) hc.le)
+    have e : |v.z| * c * (|v.z| * c) = v.z * v.z * (c * c) := by rw [← abs_mul_abs_self v.z]; ring
+    rw [e]; simp only [quadForm, Cell.ofLengths]
+    nlinarith [mul_self_nonneg (v.x * a), mul_self_nonneg (v.y * b)]
+
+/-! ### the bond criterion -/
+
+/-- the PART/hydrogen condition as the source spells it (regenerated) is the rule of the statement:
+    never between different non-zero PARTs, hydrogens only within the same PART -/
+theorem bondAllowed_iff_rule (h1 h2 : Bool) (p1 p2 : Int) :
+    Extracted.bondAllowed h1 h2 p1 p2 = true ↔ ruleAllowed h1 h2 p1 p2 := by
+  unfold Extracted.bondAllowed ruleAllowed
+  cases h1 <;> cases h2 <;> simp <;> omega
+
+/-- **covalent_iff_rule**: `covalent` of an `SDMItem` is the library's bonding rule applied to the reported
+    distance. Hypothesis `hd`: the distance is not below the limit the code uses where no bond is allowed
+    (`0.0`; reported distances exceed 0.01). -/
+theorem covalent_iff_rule (c : Consts K) (r1 r2 d : K) (h1 h2 : Bool) (p1 p2 : Int) (hd : c.nobond ≤ d) :
+    covalentOf c (Extracted.bondAllowed h1 h2 p1 p2) r1 r2 d = ruleBonded c.factor r1 r2 d h1 h2 p1 p2 := by
+  have hr := bondAllowed_iff_rule h1 h2 p1 p2
+  unfold covalentOf ruleBonded
+  by_cases ha : Extracted.bondAllowed h1 h2 p1 p2 = true
+  · have : ruleAllowed h1 h2 p1 p2 := hr.mp ha
+    simp [ha, this, mul_comm]
+  · have hn : ¬ ruleAllowed h1 h2 p1 p2 := fun h => ha (hr.mpr h)
+    have hlt : ¬ d < c.nobond := not_lt.mpr hd
+    simp [ha, hn, hlt]
+
+example : ruleAllowed true false 1 1 ∧ ¬ ruleAllowed true false 0 1 ∧ ruleAllowed false false 0 2 ∧
+    ¬ ruleAllowed false false 1 2 := by decide
+
+/-! ### the operator loop picks the minimum -/
+
+/-- operator `n` with wrapped length `dk` takes part in the comparison -/
+def Eligible (c : Consts K) (n : Nat) (dk : K) : Prop := ¬ dk > c.cut ∧ biased c n dk > c.eps
+
+theorem selStep_cases (c : Consts K) (st : K × Option (K × Nat)) (n : Nat) (dk : K) :
+    (selStep c st n dk = st ∧ (Eligible c n dk → st.1 < biased c n dk)) ∨
+    (Eligible c n dk ∧ biased c n dk ≤ st.1 ∧ selStep c st n dk = (biased c n dk, some (dk, n))) := by
+  unfold selStep Eligible
+  by_cases h1 : dk > c.cut
+  · left; simp [h1]
+  · by_cases h2 : biased c n dk > c.eps ∧ st.1 ≥ biased c n dk
+    · right
+      refine ⟨⟨h1, h2.1⟩, h2.2, ?_⟩
+      have : ¬ st.1 < biased c n dk := not_lt.mpr h2.2
+      simp [h1, h2.1, h2.2, pyMin, this]
+    · left
+      refine ⟨by simp only [h1, if_false]; rw [if_neg h2], ?_⟩
+      rintro ⟨_, he⟩
+      by_contra hc
+      exact h2 ⟨he, not_lt.mp hc⟩
+
+theorem selLoop_spec (c : Consts K) : ∀ (ds : List K) (st : K × Option (K × Nat)) (n : Nat),
+    (selLoop c st n ds).1 ≤ st.1 ∧
+    (∀ i di, ds[i]? = some di → Eligible c (n + i) di → (selLoop c st n ds).1 ≤ biased c (n + i) di) ∧
+    (selLoop c st n ds = st ∨ ∃ i di, ds[i]? = some di ∧ Eligible c (n + i) di ∧
+        selLoop c st n ds = (biased c (n + i) di, some (di, n + i))) := by
+  intro ds
+  induction ds with
+  | nil => intro st n; simp [selLoop]
+  | cons dk ds ih =>
+    intro st n
+    obtain ⟨i1, i2, i3⟩ := ih (selStep c st n dk) (n + 1)
+    simp only [selLoop]
+    have hst : (selStep c st n dk).1 ≤ st.1 := by
+      rcases selStep_cases c st n dk with ⟨e, _⟩ | ⟨_, h, e⟩
+      · rw [e]
+      · rw [e]; exact h
+    refine ⟨le_trans i1 hst, ?_, ?_⟩
+    · intro i di hi he
+      cases i with
+      | zero =>
+        simp only [List.getElem?_cons_zero, Option.some.injEq] at hi
+        subst hi
+        have e0 : n + 0 = n := rfl
+        rw [e0] at he ⊢
+        refine le_trans i1 ?_
+        rcases selStep_cases c st n dk with ⟨e, h⟩ | ⟨_, _, e⟩
+        · rw [e]; exact le_of_lt (h he)
+        · rw [e]
+      | succ k =>
+        simp only [List.getElem?_cons_succ] at hi
+        have e : n + (k + 1) = n + 1 + k := by omega
+        rw [e] at he ⊢
+        exact i2 k di hi he
+    · rcases i3 with h | ⟨k, di, hk, he, h⟩
+      · rcases selStep_cases c st n dk with ⟨e, _⟩ | ⟨el, _, e⟩
+        · left; rw [h, e]
+        · right; exact ⟨0, dk, by simp, el, by rw [h, e]; rfl⟩
+      · right
+        have e : n + 1 + k = n + (k + 1) := by omega
+        rw [e] at he h
+        exact ⟨k + 1, di, by simpa using hk, he, h⟩
+
+/-- what `selectOp` returns: the entry of an eligible operator whose handicapped length is minimal -/
+theorem selectOp_some (c : Consts K) (ds : List K) (d : K) (n : Nat) (h : selectOp c ds = some (d, n)) :
+    ds[n]? = some d ∧ Eligible c n d ∧
+      ∀ i di, ds[i]? = some di → Eligible c i di → biased c n d ≤ biased c i di := by
+  obtain ⟨_, s2, s3⟩ := selLoop_spec c ds (c.big, none) 0
+  unfold selectOp at h
+  rcases s3 with e | ⟨i, di, hi, he, e⟩
+  · rw [e] at h; simp at h
+  · rw [e] at h
+    simp only [Option.some.injEq, Prod.mk.injEq, Nat.zero_add] at h
+    obtain ⟨rfl, rfl⟩ := h
+    rw [Nat.zero_add] at he
+    refine ⟨hi, he, ?_⟩
+    intro j dj hj hej
+    have := s2 j dj hj (by rw [Nat.zero_add]; exact hej)
+    rw [e, Nat.zero_add] at this
+    simpa using this
+
+/-- no item only if no operator is eligible. `hbig`: the start value 1000000 of the running minimum exceeds
+    every handicapped length that passed the cut. -/
+theorem selectOp_none (c : Consts K) (ds : List K) (hb : 0 ≤ c.bias) (hbig : c.cut + c.bias < c.big)
+    (h : selectOp c ds = none) : ∀ i di, ds[i]? = some di → ¬ Eligible c i di := by
+  intro i di hi he
+  obtain ⟨_, s2, s3⟩ := selLoop_spec c ds (c.big, none) 0
+  unfold selectOp at h
+  have h2 := s2 i di hi (by rw [Nat.zero_add]; exact he)
+  rcases s3 with e | ⟨k, dk, _, _, e⟩
+  · rw [e, Nat.zero_add] at h2
+    have : biased c i di ≤ c.cut + c.bias := by
+      have := not_lt.mp he.1
+      unfold biased; split <;> linarith
+    simp only at h2
+    linarith
+  · rw [e] at h; simp at h
+
+/-- exact minimality. `hsep` is the separation hypothesis the identity handicap forces: the identity's contact
+    is not within `bias` (0.0001 Å) above a strictly shorter contact of another operator (there the code
+    deliberately reports the identity). -/
+theorem selectOp_min (c : Consts K) (ds : List K) (d : K) (n : Nat) (h : selectOp c ds = some (d, n))
+    (hb : 0 ≤ c.bias)
+    (hsep : ∀ i di d0, i ≠ 0 → ds[i]? = some di → ds[0]? = some d0 → di < d0 → di + c.bias < d0) :
+    ∀ i di, ds[i]? = some di → Eligible c i di → d ≤ di := by
+  obtain ⟨hn, _, hmin⟩ := selectOp_some c ds d n h
+  intro i di hi he
+  have hle := hmin i di hi he
+  unfold biased at hle
+  by_cases n0 : n = 0 <;> by_cases i0 : i = 0 <;> simp only [n0, i0, if_true, if_false] at hle
+  · exact hle
+  · by_contra hc
+    push Not at hc
+    have := hsep i di d i0 hi (by rw [← n0]; exact hn) hc
+    linarith
+  · linarith
+  · linarith
+
+/-! ### sdm_reports_min -/
+
+theorem map_getElem? {α β : Type} (f : α → β) (l : List α) (i : Nat) (y : β) (h : (l.map f)[i]? = some y) :
+    ∃ x, l[i]? = some x ∧ f x = y := by
+  rw [List.getElem?_map] at h
+  cases hx : l[i]? with
+  | none => rw [hx] at h; simp at h
+  | some x => rw [hx] at h; exact ⟨x, rfl, by simpa using h⟩
+
+/-- **sdm_reports_min**. For one ordered pair of atoms `x1`, `x2` and the operator list `ops` the library holds:
+    if the model's operator loop returns `(d, n)` and `d` is below half of every perpendicular spacing, then
+    (i) operator `n` realises `d` with some lattice translation `t ∈ ℤ³`, and
+    (ii) `d` is the minimum of `‖R x1 + τ + t − x2‖` over ALL operators of the list and ALL `t ∈ ℤ³`,
+         among the images farther than `eps` (0.01 Å: closer images count as the atom itself).
+    Hypotheses: exact `floor`/`sqrt`; the reciprocal-length bound of the cell (`RecipBound`, proved for orthogonal
+    cells); `hsep` (see `selectOp_min`). The 5.3 Å cut needs no hypothesis here: an item exists, so `d ≤ cut`. -/
+theorem sdm_reports_min {fl sq : K → K} (hf : IsFloor fl) (c : Consts K) (hh : 2 * c.half = 1) (hb : 0 ≤ c.bias)
+    (cell : Cell K) {dsp : V3 K} (hr : RecipBound (vectorLength sq cell) dsp)
+    (ops : List (Op K)) (x1 x2 : V3 K) (d : K) (n : Nat)
+    (h : selectOp c (opLengths fl sq c cell ops x1 x2) = some (d, n))
+    (hdom : 2 * d < dsp.x ∧ 2 * d < dsp.y ∧ 2 * d < dsp.z)
+    (hsep : ∀ i di d0, i ≠ 0 → (opLengths fl sq c cell ops x1 x2)[i]? = some di →
+        (opLengths fl sq c cell ops x1 x2)[0]? = some d0 → di < d0 → di + c.bias < d0) :
+    (∃ o t, ops[n]? = some o ∧ IsLattice t ∧ d = vectorLength sq cell (((applyOp o x1).sub x2).add t)) ∧
+    (∀ (i : Nat) (o : Op K) (t : V3 K), ops[i]? = some o → IsLattice t →
+        c.eps < vectorLength sq cell (((applyOp o x1).sub x2).add t) →
+        d ≤ vectorLength sq cell (((applyOp o x1).sub x2).add t)) := by
+  obtain ⟨hn, hel, _⟩ := selectOp_some c _ d n h
+  have hmin := selectOp_min c _ d n h hb hsep
+  constructor
+  · obtain ⟨o, ho, hfo⟩ := map_getElem? _ ops n d hn
+    set v := (applyOp o x1).sub x2 with hv
+    obtain ⟨_, _, ix⟩ := wrap_component hf hh v.x
+    obtain ⟨_, _, iy⟩ := wrap_component hf hh v.y
+    obtain ⟨_, _, iz⟩ := wrap_component hf hh v.z
+    refine ⟨o, (wrapV fl c.half v).sub v, ho, ?_, ?_⟩
+    · refine ⟨?_, ?_, ?_⟩
+      · obtain ⟨k, hk⟩ := isInt_neg ix; exact ⟨k, by rw [← hk]; simp [V3.sub, wrapV]⟩
+      · obtain ⟨k, hk⟩ := isInt_neg iy; exact ⟨k, by rw [← hk]; simp [V3.sub, wrapV]⟩
+      · obtain ⟨k, hk⟩ := isInt_neg iz; exact ⟨k, by rw [← hk]; simp [V3.sub, wrapV]⟩
+    · have e : v.add ((wrapV fl c.half v).sub v) = wrapV fl c.half v := by
+        apply V3.ext' <;> simp only [V3.add, V3.sub] <;> ring
+      rw [e, ← hfo]; rfl
+  · intro i o t ho ht hfar
+    set v := (applyOp o x1).sub x2 with hv
+    set L := vectorLength sq cell (v.add t) with hL
+    by_cases hs : 2 * L < dsp.x ∧ 2 * L < dsp.y ∧ 2 * L < dsp.z
+    · have hw := (wrap_is_min_image hf hh hr v t ht hs).1
+      have hi : (opLengths fl sq c cell ops x1 x2)[i]? = some L := by
+        unfold opLengths
+        rw [List.getElem?_map, ho]
+        simp only [Option.map_some, wrappedDiff]
+        rw [← hv, hw]
+      by_cases hcut : L > c.cut
+      · have := not_lt.mp hel.1
+        exact le_trans this (le_of_lt hcut)
+      · apply hmin i L hi
+        refine ⟨hcut, ?_⟩
+        unfold biased
+        split
+        · exact hfar
+        · have : c.eps < L := hfar
+          show c.eps < L + c.bias
+          linarith
+    · have : dsp.x ≤ 2 * L ∨ dsp.y ≤ 2 * L ∨ dsp.z ≤ 2 * L := by
+        by_contra hc
+        push Not at hc
+        exact hs ⟨hc.1, hc.2.1, hc.2.2⟩
+      rcases this with h1 | h1 | h1
+      · linarith [hdom.1]
+      · linarith [hdom.2.1]
+      · linarith [hdom.2.2]
+
+
 end Shelx.C13
